@@ -569,16 +569,16 @@ theorem pin_bloom_limits :
 
 /-! ### pinning of regenerated facts (T2) -/
 
-/-- wire constants of the merkleblock message -/
+/-- protocol constants of the merkleblock message: command string, the protocol version that introduced
+    it, and the 4 000 000-byte message bound. (The decoder's internal sanity caps on the two counts are NOT
+    pinned: they are parameters of the model, see `pmt_wire_roundtrip`.) -/
 theorem pin_merkleblock_wire :
     Generated.C20.merkleBlockCommand = "merkleblock" ∧ Generated.C20.merkleBlockMaxPayload = 4000000 ∧
-    Generated.C20.bip0037Version = (PmtWire.BIP0037_VERSION : Int) ∧
-    Generated.C20.maxBlockPayload / 10 + 1 = (PmtWire.MAX_TX_PER_BLOCK : Int) ∧
-    (Generated.C20.maxBlockPayload / 10 + 1) / 8 = (PmtWire.MAX_FLAGS : Int) := by decide
+    Generated.C20.bip0037Version = (PmtWire.BIP0037_VERSION : Int) := by decide
 
 theorem pin_basic_params :
     Generated.C20.defaultP = (BASIC_P : Int) ∧ Generated.C20.defaultM = (BASIC_M : Int) ∧
     Generated.C20.keySize = (KEY_SIZE : Int) ∧ Generated.C20.opReturn = (OP_RETURN.toNat : Int) ∧
-    Generated.C20.varIntProtoVer = 0 ∧ Generated.C20.hashSize = 32 := by decide
+    Generated.C20.hashSize = 32 := by decide
 
 end BV.C20
